@@ -377,7 +377,7 @@ func (g *generator) generate() *history {
 	}
 	n := 30 + g.rnd(30)
 	for i := 0; i < n; i++ {
-		if g.split && g.rnd(5) == 0 && g.topUpThenUnauthorizeMore() {
+		if (g.split && g.rnd(5) == 0 || !g.split && g.rnd(9) == 0) && g.topUpThenUnauthorizeMore() {
 			continue
 		}
 		if g.rnd(14) == 0 && g.ownerRecordThenQuit() {
@@ -642,5 +642,27 @@ func probes() []*history {
 		op{Kind: "withdraw", Signer: 6, Addr: 6, Peers: []int{10}, Pos: []uint32{18000}}, // 6000 left over + 12000
 		op{Kind: "withdraw", Signer: 6, Addr: 6, Peers: []int{10}, Pos: []uint32{12000}}, // must fail
 	)
-	return []*history{p1, p2, p3, p4, p5, p6, p7, p8}
+	// unAuthorizeForPeer served partly from NewPos and partly from committed positions: an address
+	// with Consensus (node 7) resp. Candidate (node 9) positions authorizes more in the current epoch
+	// and unauthorizes more than it just added; after the freeze it withdraws exactly what it
+	// unauthorized, one unit more must fail.
+	p9 := seq(base(late),
+		op{Kind: "maxauth", Signer: 4, Addr: 4, Peer: 7, Amount: 200000},
+		op{Kind: "authorize", Signer: 8, Addr: 8, Peers: []int{7}, Pos: []uint32{10000}},
+		op{Kind: "register", Signer: 6, Addr: 6, Peer: 9, Amount: 10000},
+		op{Kind: "maxauth", Signer: 6, Addr: 6, Peer: 9, Amount: 100000},
+		op{Kind: "authorize", Signer: 9, Addr: 9, Peers: []int{9}, Pos: []uint32{500}},
+		op{Kind: "commit", Signer: 1},
+		op{Kind: "authorize", Signer: 8, Addr: 8, Peers: []int{7}, Pos: []uint32{5000}},
+		op{Kind: "unauthorize", Signer: 8, Addr: 8, Peers: []int{7}, Pos: []uint32{7500}},
+		op{Kind: "authorize", Signer: 9, Addr: 9, Peers: []int{9}, Pos: []uint32{1000}},
+		op{Kind: "unauthorize", Signer: 9, Addr: 9, Peers: []int{9}, Pos: []uint32{1500}},
+		op{Kind: "commit", Signer: 1},
+		op{Kind: "withdraw", Signer: 9, Addr: 9, Peers: []int{9}, Pos: []uint32{1500}},
+		op{Kind: "withdraw", Signer: 9, Addr: 9, Peers: []int{9}, Pos: []uint32{1}},
+		op{Kind: "commit", Signer: 1},
+		op{Kind: "withdraw", Signer: 8, Addr: 8, Peers: []int{7}, Pos: []uint32{7500}},
+		op{Kind: "withdraw", Signer: 8, Addr: 8, Peers: []int{7}, Pos: []uint32{1}},
+	)
+	return []*history{p1, p2, p3, p4, p5, p6, p7, p8, p9}
 }
